@@ -102,7 +102,10 @@ let () =
           | "release" -> apply (XRelease (nat_of_int (int_of_string (a 0))))
           | "cleanup" -> apply (XCleanup (nat_of_int (int_of_string (a 0))))
           | "cp" -> Hashtbl.replace cps (a 0) (checkpoint_pos (b ())); apply XCheckpoint
-          | "revert" -> apply (XRevert (Hashtbl.find cps (a 0)))
+          | "revert" ->
+              let n' = Hashtbl.find cps (a 0) in
+              (* the model decides whether this revert is legal; the harness must only execute legal ones *)
+              if not (revert_legalb (b ()) n') then "illegal-revert-executed-by-the-harness" else apply (XRevert n')
           | _ -> "unknown-op"
         with e -> "model-exception " ^ Printexc.to_string e) in
         incr n; bump (!target ^ ":" ^ kind);
